@@ -120,6 +120,43 @@ theorem setOrder_keeps_angles {α : Type} [Field α] (o : Ord) (a : V3 α) : set
 
 /-! ## 3. toMatrix33 / toMatrix44 / toQuat: three textual copies of the Shoemake formulas -/
 
+/-! Raw product forms, without any hypothesis on `sin`/`cos`: `sg`/`ng`/`ngq` (Lemmas/C11Lemmas.lean) record
+    the sign manipulations of the code for parity-odd orders (`angles *= -1.0`; `angles.y = -angles.y`, `parity`). -/
+
+set_option maxHeartbeats 4000000 in
+/-- each of the 24 extracted `toMatrix33` is a product of three elementary rotations (M33 level) -/
+theorem toM33_raw {α : Type} [Field α] (o : Ord) (sin cos : α → α) (a : V3 α) :
+    toM33 o sin cos a =
+      mul33 (mul33 (rotAxM o.i (sg o.even (sin (ng o.even (angles o a).1))) (cos (ng o.even (angles o a).1)))
+                   (rotAxM o.j (sg o.even (sin (ng o.even (angles o a).2.1))) (cos (ng o.even (angles o a).2.1))))
+                   (rotAxM o.h (sg o.even (sin (ng o.even (angles o a).2.2))) (cos (ng o.even (angles o a).2.2))) := by
+  cases o <;>
+  (unfold_toM33
+   ordtabs
+   apply M33.ext' <;> ring)
+
+/-- … as Mathlib matrices -/
+theorem toM33_raw_toMat {α : Type} [Field α] (o : Ord) (sin cos : α → α) (a : V3 α) :
+    (toM33 o sin cos a).toMat =
+      eulerMatSC o (sg o.even (sin (ng o.even (angles o a).1))) (cos (ng o.even (angles o a).1))
+                   (sg o.even (sin (ng o.even (angles o a).2.1))) (cos (ng o.even (angles o a).2.1))
+                   (sg o.even (sin (ng o.even (angles o a).2.2))) (cos (ng o.even (angles o a).2.2)) := by
+  rw [toM33_raw, mul33_toMat, mul33_toMat, rotAxM_toMat, rotAxM_toMat, rotAxM_toMat, eulerMatSC]
+
+set_option maxHeartbeats 4000000 in
+/-- each of the 24 extracted `toQuat` is a product of three axis quaternions -/
+theorem toQuat_raw {α : Type} [Field α] (o : Ord) (sin cos : α → α) (a : V3 α) :
+    toQuat o sin cos a =
+      eulerQuatSC o (sin ((angles o a).1 * (1 / 2))) (cos ((angles o a).1 * (1 / 2)))
+                    (sg o.even (sin (ngq o.even (angles o a).2.1 * (1 / 2)))) (cos (ngq o.even (angles o a).2.1 * (1 / 2)))
+                    (sin ((angles o a).2.2 * (1 / 2))) (cos ((angles o a).2.2 * (1 / 2))) := by
+  cases o <;>
+  (unfold_toQuat
+   simp only [eulerQuatSC]
+   ordtabs
+   apply Quat.ext' <;> ring)
+
+
 set_option maxHeartbeats 4000000 in
 /-- `toMatrix44` is `toMatrix33` in the upper-left block of the identity (all 24 orders) -/
 theorem toMatrix44_eq_embed_toMatrix33 {α : Type} [Field α] (o : Ord) (sin cos : α → α) (a : V3 α) :
@@ -341,6 +378,271 @@ theorem angleMod_driver_instance (pi x : ℚ) (hpi : 0 < pi) :
     (-pi ≤ Model.Euler.angleMod Model.Euler.ratTrunc pi x ∧ Model.Euler.angleMod Model.Euler.ratTrunc pi x ≤ pi)
     ∧ ∃ k : ℤ, Model.Euler.angleMod Model.Euler.ratTrunc pi x = x + (k : ℚ) * (2 * pi) :=
   ⟨angleMod_range _ ratTrunc_isTrunc pi x hpi, angleMod_congr _ pi x⟩
+
+/-! ## 8. The inverse direction: extract ∘ toMatrix on the principal range (over ℝ)
+
+Full statement of the property: for EVERY rotation matrix `M` (any order, including gimbal lock)
+`toMatrix33 (extract M) = M`, also through 4×4 matrices and quaternions, and the re-ordering
+constructor `Euler (e, newOrder)` preserves the rotation.
+PROVED below (`…_partial`): for all 24 orders and every `M = toMatrix33 a` with `a` in the OPEN
+principal range of the order, `extract M = a` exactly (hence the round trip), over ℝ with the real
+`sin/cos/sqrt` and `atan2 y x = arg (x + i y)`; likewise through `toMatrix44` and `toQuat`, and for the
+free functions `extractEulerXYZ / extractEulerZYX / extractEuler` against their builders.
+MISSING (measured by harness/corr/c11_residue.cpp on all 24 orders × float/double): matrices at gimbal
+lock (middle angle with cos = 0, resp. sin = 0) and its 1e-k neighbourhoods in floating point, angles
+exactly ±π, surjectivity (that every non-gimbal rotation matrix IS `toMatrix33 a` for an in-range `a`,
+which is what the re-ordering constructor needs), and rounding. -/
+
+/-! One theorem per family (static / rotating × non-repeated / repeated), each by `cases o` over the extracted
+    definitions; `extract_inverts_toMatrix33_partial` below combines them. -/
+
+set_option maxHeartbeats 4000000 in
+theorem extract_toMatrix33_static (o : Ord) (hs : o.static = true) (hnr : o.repeated = false) (a : V3 ℝ)
+    (hx : a.x ∈ Set.Ioo (-π) π) (hy : a.y ∈ Set.Ioo (-(π / 2)) (π / 2)) (hz : a.z ∈ Set.Ioo (-π) π) :
+    exM33 o Real.sqrt Real.sin Real.cos atan2R (toM33 o Real.sin Real.cos a) = a := by
+  have hcy : 0 < Real.cos a.y := Real.cos_pos_of_mem_Ioo hy
+  have sx := Real.sin_sq_add_cos_sq a.x
+  have sz := Real.sin_sq_add_cos_sq a.z
+  have hxe : atan2R (Real.cos a.y * Real.sin a.x) (Real.cos a.y * Real.cos a.x) = a.x :=
+    atan2R_eq (Real.cos a.y) a.x hcy ⟨hx.1, hx.2.le⟩ rfl rfl
+  have hxo : atan2R (-(Real.cos a.y * Real.sin a.x)) (Real.cos a.y * Real.cos a.x) = -a.x :=
+    atan2R_eq_neg (Real.cos a.y) a.x hcy ⟨hx.1.le, hx.2⟩ rfl rfl
+  cases o <;> first
+    | exact absurd hs (by decide)
+    | exact absurd hnr (by decide)
+    | (unfold_exM33; unfold_toM33
+       (try simp only [mul_neg, mul_one, Real.sin_neg, Real.cos_neg])
+       simp only [Real.sin_zero, Real.cos_zero, hxe, hxo, Real.sin_neg, Real.cos_neg, mul_zero, zero_mul, add_zero, zero_add, mul_one, one_mul, neg_zero, neg_neg]
+       apply V3.ext'
+       · rfl
+       · simp only
+         first
+           | (refine atan2R_eq 1 a.y one_pos (Ioo_sub_Ioc hy) (by ring) ?_
+              rw [one_mul]; exact sqrt_eq_of_sq hcy.le (by linear_combination (Real.cos a.y) ^ 2 * sz))
+           | (rw [neg_eq_iff_eq_neg]
+              refine atan2R_eq_neg 1 a.y one_pos (Ioo_sub_Ico hy) (by ring) ?_
+              rw [one_mul]; exact sqrt_eq_of_sq hcy.le (by linear_combination (Real.cos a.y) ^ 2 * sz))
+       · simp only
+         first
+           | exact atan2R_eq 1 a.z one_pos ⟨hz.1, hz.2.le⟩ (by linear_combination (Real.sin a.z) * sx) (by linear_combination (Real.cos a.z) * sx)
+           | (rw [neg_eq_iff_eq_neg]
+              exact atan2R_eq_neg 1 a.z one_pos ⟨hz.1.le, hz.2⟩ (by linear_combination (-Real.sin a.z) * sx) (by linear_combination (Real.cos a.z) * sx)))
+set_option maxHeartbeats 4000000 in
+theorem extract_toMatrix33_rotating (o : Ord) (hs : o.static = false) (hnr : o.repeated = false) (a : V3 ℝ)
+    (hx : a.z ∈ Set.Ioo (-π) π) (hy : a.y ∈ Set.Ioo (-(π / 2)) (π / 2)) (hz : a.x ∈ Set.Ioo (-π) π) :
+    exM33 o Real.sqrt Real.sin Real.cos atan2R (toM33 o Real.sin Real.cos a) = a := by
+  have hcy : 0 < Real.cos a.y := Real.cos_pos_of_mem_Ioo hy
+  have sx := Real.sin_sq_add_cos_sq a.z
+  have sz := Real.sin_sq_add_cos_sq a.x
+  have hxe : atan2R (Real.cos a.y * Real.sin a.z) (Real.cos a.y * Real.cos a.z) = a.z :=
+    atan2R_eq (Real.cos a.y) a.z hcy ⟨hx.1, hx.2.le⟩ rfl rfl
+  have hxo : atan2R (-(Real.cos a.y * Real.sin a.z)) (Real.cos a.y * Real.cos a.z) = -a.z :=
+    atan2R_eq_neg (Real.cos a.y) a.z hcy ⟨hx.1.le, hx.2⟩ rfl rfl
+  cases o <;> first
+    | exact absurd hs (by decide)
+    | exact absurd hnr (by decide)
+    | (unfold_exM33; unfold_toM33
+       (try simp only [mul_neg, mul_one, Real.sin_neg, Real.cos_neg])
+       simp only [Real.sin_zero, Real.cos_zero, hxe, hxo, Real.sin_neg, Real.cos_neg, mul_zero, zero_mul, add_zero, zero_add, mul_one, one_mul, neg_zero, neg_neg]
+       apply V3.ext'
+       · simp only
+         first
+           | exact atan2R_eq 1 a.x one_pos ⟨hz.1, hz.2.le⟩ (by linear_combination (Real.sin a.x) * sx) (by linear_combination (Real.cos a.x) * sx)
+           | (rw [neg_eq_iff_eq_neg]
+              exact atan2R_eq_neg 1 a.x one_pos ⟨hz.1.le, hz.2⟩ (by linear_combination (-Real.sin a.x) * sx) (by linear_combination (Real.cos a.x) * sx))
+       · simp only
+         first
+           | (refine atan2R_eq 1 a.y one_pos (Ioo_sub_Ioc hy) (by ring) ?_
+              rw [one_mul]; exact sqrt_eq_of_sq hcy.le (by linear_combination (Real.cos a.y) ^ 2 * sz))
+           | (rw [neg_eq_iff_eq_neg]
+              refine atan2R_eq_neg 1 a.y one_pos (Ioo_sub_Ico hy) (by ring) ?_
+              rw [one_mul]; exact sqrt_eq_of_sq hcy.le (by linear_combination (Real.cos a.y) ^ 2 * sz))
+       · rfl)
+
+
+set_option maxHeartbeats 4000000 in
+theorem extract_toMatrix33_static_rep (o : Ord) (hs : o.static = true) (hr : o.repeated = true) (a : V3 ℝ)
+    (hx : a.x ∈ Set.Ioo (-π) π) (hy : if o.even then a.y ∈ Set.Ioo 0 π else a.y ∈ Set.Ioo (-π) 0) (hz : a.z ∈ Set.Ioo (-π) π) :
+    exM33 o Real.sqrt Real.sin Real.cos atan2R (toM33 o Real.sin Real.cos a) = a := by
+  have sx := Real.sin_sq_add_cos_sq a.x
+  have sz := Real.sin_sq_add_cos_sq a.z
+  cases o <;> first
+    | exact absurd hs (by decide)
+    | exact absurd hr (by decide)
+    | (simp only [Ord.even_table, if_true] at hy
+       have hsy : 0 < Real.sin a.y := Real.sin_pos_of_pos_of_lt_pi hy.1 hy.2
+       have hxe : atan2R (Real.sin a.y * Real.sin a.x) (Real.sin a.y * Real.cos a.x) = a.x :=
+         atan2R_eq (Real.sin a.y) a.x hsy ⟨hx.1, hx.2.le⟩ rfl rfl
+       unfold_exM33; unfold_toM33
+       simp only [Real.sin_zero, Real.cos_zero, hxe, Real.sin_neg, Real.cos_neg, mul_zero, zero_mul, add_zero, zero_add, mul_one, one_mul, neg_zero, neg_neg]
+       apply V3.ext'
+       · rfl
+       · simp only
+         refine atan2R_eq 1 a.y one_pos ⟨by linarith [hy.1, Real.pi_pos], hy.2.le⟩ ?_ (by ring)
+         rw [one_mul]; exact sqrt_eq_of_sq hsy.le (by linear_combination (Real.sin a.y) ^ 2 * (Real.sin a.x ^ 2 + Real.cos a.x ^ 2 + 1) * sx)
+       · simp only
+         exact atan2R_eq 1 a.z one_pos ⟨hz.1, hz.2.le⟩ (by linear_combination (Real.sin a.z) * sx) (by linear_combination (Real.cos a.z) * sx))
+    | (simp only [Ord.even_table, if_false, Bool.false_eq_true] at hy
+       have hsy : 0 < -Real.sin a.y := by
+         have := Real.sin_pos_of_pos_of_lt_pi (x := -a.y) (by linarith [hy.2]) (by linarith [hy.1])
+         rwa [Real.sin_neg] at this
+       have hxo : atan2R (Real.sin a.y * Real.sin a.x) (-(Real.sin a.y * Real.cos a.x)) = -a.x :=
+         atan2R_eq_neg (-Real.sin a.y) a.x hsy ⟨hx.1.le, hx.2⟩ (by ring) (by ring)
+       unfold_exM33; unfold_toM33
+       simp only [mul_neg, neg_mul, mul_one, Real.sin_neg, Real.cos_neg, neg_neg]
+       simp only [Real.sin_zero, Real.cos_zero, hxo, Real.sin_neg, Real.cos_neg, mul_zero, zero_mul, add_zero, zero_add, mul_one, one_mul, neg_zero, neg_neg]
+       apply V3.ext'
+       · rfl
+       · simp only
+         rw [neg_eq_iff_eq_neg]
+         refine atan2R_eq_neg 1 a.y one_pos ⟨hy.1.le, by linarith [hy.2, Real.pi_pos]⟩ ?_ (by ring)
+         rw [one_mul]; exact sqrt_eq_of_sq hsy.le (by linear_combination (Real.sin a.y) ^ 2 * (Real.sin a.x ^ 2 + Real.cos a.x ^ 2 + 1) * sx)
+       · simp only
+         rw [neg_eq_iff_eq_neg]
+         exact atan2R_eq_neg 1 a.z one_pos ⟨hz.1.le, hz.2⟩ (by linear_combination (-Real.sin a.z) * sx) (by linear_combination (Real.cos a.z) * sx))
+
+set_option maxHeartbeats 4000000 in
+theorem extract_toMatrix33_rotating_rep (o : Ord) (hs : o.static = false) (hr : o.repeated = true) (a : V3 ℝ)
+    (hx : a.z ∈ Set.Ioo (-π) π) (hy : if o.even then a.y ∈ Set.Ioo 0 π else a.y ∈ Set.Ioo (-π) 0) (hz : a.x ∈ Set.Ioo (-π) π) :
+    exM33 o Real.sqrt Real.sin Real.cos atan2R (toM33 o Real.sin Real.cos a) = a := by
+  have sx := Real.sin_sq_add_cos_sq a.z
+  have sz := Real.sin_sq_add_cos_sq a.x
+  cases o <;> first
+    | exact absurd hs (by decide)
+    | exact absurd hr (by decide)
+    | (simp only [Ord.even_table, if_true] at hy
+       have hsy : 0 < Real.sin a.y := Real.sin_pos_of_pos_of_lt_pi hy.1 hy.2
+       have hxe : atan2R (Real.sin a.y * Real.sin a.z) (Real.sin a.y * Real.cos a.z) = a.z :=
+         atan2R_eq (Real.sin a.y) a.z hsy ⟨hx.1, hx.2.le⟩ rfl rfl
+       unfold_exM33; unfold_toM33
+       simp only [Real.sin_zero, Real.cos_zero, hxe, Real.sin_neg, Real.cos_neg, mul_zero, zero_mul, add_zero, zero_add, mul_one, one_mul, neg_zero, neg_neg]
+       apply V3.ext'
+       · simp only
+         exact atan2R_eq 1 a.x one_pos ⟨hz.1, hz.2.le⟩ (by linear_combination (Real.sin a.x) * sx) (by linear_combination (Real.cos a.x) * sx)
+       · simp only
+         refine atan2R_eq 1 a.y one_pos ⟨by linarith [hy.1, Real.pi_pos], hy.2.le⟩ ?_ (by ring)
+         rw [one_mul]; exact sqrt_eq_of_sq hsy.le (by linear_combination (Real.sin a.y) ^ 2 * (Real.sin a.z ^ 2 + Real.cos a.z ^ 2 + 1) * sx)
+       · rfl)
+    | (simp only [Ord.even_table, if_false, Bool.false_eq_true] at hy
+       have hsy : 0 < -Real.sin a.y := by
+         have := Real.sin_pos_of_pos_of_lt_pi (x := -a.y) (by linarith [hy.2]) (by linarith [hy.1])
+         rwa [Real.sin_neg] at this
+       have hxo : atan2R (Real.sin a.y * Real.sin a.z) (-(Real.sin a.y * Real.cos a.z)) = -a.z :=
+         atan2R_eq_neg (-Real.sin a.y) a.z hsy ⟨hx.1.le, hx.2⟩ (by ring) (by ring)
+       unfold_exM33; unfold_toM33
+       simp only [mul_neg, neg_mul, mul_one, Real.sin_neg, Real.cos_neg, neg_neg]
+       simp only [Real.sin_zero, Real.cos_zero, hxo, Real.sin_neg, Real.cos_neg, mul_zero, zero_mul, add_zero, zero_add, mul_one, one_mul, neg_zero, neg_neg]
+       apply V3.ext'
+       · simp only
+         rw [neg_eq_iff_eq_neg]
+         exact atan2R_eq_neg 1 a.x one_pos ⟨hz.1.le, hz.2⟩ (by linear_combination (-Real.sin a.x) * sx) (by linear_combination (Real.cos a.x) * sx)
+       · simp only
+         rw [neg_eq_iff_eq_neg]
+         refine atan2R_eq_neg 1 a.y one_pos ⟨hy.1.le, by linarith [hy.2, Real.pi_pos]⟩ ?_ (by ring)
+         rw [one_mul]; exact sqrt_eq_of_sq hsy.le (by linear_combination (Real.sin a.y) ^ 2 * (Real.sin a.z ^ 2 + Real.cos a.z ^ 2 + 1) * sx)
+       · rfl)
+
+
+
+/-! ## `extractEulerXYZ` / `extractEulerZYX` are `Euler::extract (Matrix44)` after a normalisation that is the
+identity on matrices with unit rows -/
+
+set_option maxHeartbeats 2000000 in
+/-- on a matrix whose three rows already have length 1 the normalisation step of `extractEulerXYZ`
+    is the identity and the rest is, term for term, `Euler::extract (Matrix44)` for order XYZ -/
+theorem extractEulerXYZ_eq_member {α : Type} [Field α] [LinearOrder α] [IsStrictOrderedRing α]
+    (tmin : α) (sqrt sin cos : α → α) (atan2 : α → α → α) (m : M44 α)
+    (h0 : Gen.V3.length tmin sqrt ⟨m.x00, m.x01, m.x02⟩ = 1) (h1 : Gen.V3.length tmin sqrt ⟨m.x10, m.x11, m.x12⟩ = 1)
+    (h2 : Gen.V3.length tmin sqrt ⟨m.x20, m.x21, m.x22⟩ = 1) :
+    Gen.Euler.extractEulerXYZ tmin sqrt sin cos atan2 m = exM44 .XYZ sqrt sin cos atan2 m := by
+  simp only [Gen.Euler.extractEulerXYZ, exM44, Gen.Euler.extractM44_XYZ, h0, h1, h2, one_ne_zero, if_false, div_one]
+  apply V3.ext' <;> simp only [zero_mul, mul_zero, add_zero, zero_add, one_mul, mul_one]
+
+set_option maxHeartbeats 2000000 in
+theorem extractEulerZYX_eq_member {α : Type} [Field α] [LinearOrder α] [IsStrictOrderedRing α]
+    (tmin : α) (sqrt sin cos : α → α) (atan2 : α → α → α) (m : M44 α)
+    (h0 : Gen.V3.length tmin sqrt ⟨m.x00, m.x01, m.x02⟩ = 1) (h1 : Gen.V3.length tmin sqrt ⟨m.x10, m.x11, m.x12⟩ = 1)
+    (h2 : Gen.V3.length tmin sqrt ⟨m.x20, m.x21, m.x22⟩ = 1) :
+    Gen.Euler.extractEulerZYX tmin sqrt sin cos atan2 m = exM44 .ZYX sqrt sin cos atan2 m := by
+  simp only [Gen.Euler.extractEulerZYX, exM44, Gen.Euler.extractM44_ZYX, h0, h1, h2, one_ne_zero, if_false, div_one]
+  apply V3.ext' <;> simp only [zero_mul, mul_zero, add_zero, zero_add, one_mul, mul_one, neg_neg, mul_neg]
+
+/-- the open principal range of order `o` -/
+def principal (o : Ord) (a : V3 ℝ) : Prop :=
+  a.x ∈ Set.Ioo (-Real.pi) Real.pi ∧ a.z ∈ Set.Ioo (-Real.pi) Real.pi ∧
+    (if o.repeated then (if o.even then a.y ∈ Set.Ioo 0 Real.pi else a.y ∈ Set.Ioo (-Real.pi) 0)
+     else a.y ∈ Set.Ioo (-(Real.pi / 2)) (Real.pi / 2))
+
+/-- `extract (Matrix33)` inverts `toMatrix33` on the principal range, for all 24 orders -/
+theorem extract_inverts_toMatrix33_partial (o : Ord) (a : V3 ℝ) (h : principal o a) :
+    exM33 o Real.sqrt Real.sin Real.cos atan2R (toM33 o Real.sin Real.cos a) = a := by
+  obtain ⟨hx, hz, hy⟩ := h
+  cases hr : o.repeated <;> cases hs : o.static <;> simp only [hr, if_true, if_false, Bool.false_eq_true] at hy
+  · exact extract_toMatrix33_rotating o hs hr a hz hy hx
+  · exact extract_toMatrix33_static o hs hr a hx hy hz
+  · exact extract_toMatrix33_rotating_rep o hs hr a hz hy hx
+  · exact extract_toMatrix33_static_rep o hs hr a hx hy hz
+
+/-- hence converting the extracted angles back reproduces the rotation -/
+theorem toMatrix33_extract_roundtrip_partial (o : Ord) (a : V3 ℝ) (h : principal o a) :
+    toM33 o Real.sin Real.cos (exM33 o Real.sqrt Real.sin Real.cos atan2R (toM33 o Real.sin Real.cos a))
+      = toM33 o Real.sin Real.cos a := by
+  rw [extract_inverts_toMatrix33_partial o a h]
+
+/-- the same through 4×4 matrices … -/
+theorem extract_inverts_toMatrix44_partial (o : Ord) (a : V3 ℝ) (h : principal o a) :
+    exM44 o Real.sqrt Real.sin Real.cos atan2R (toM44 o Real.sin Real.cos a) = a := by
+  rw [toMatrix44_eq_embed_toMatrix33, extract_embed33, extract_inverts_toMatrix33_partial o a h]
+
+/-- … and through quaternions -/
+theorem extract_inverts_toQuat_partial (o : Ord) (a : V3 ℝ) (h : principal o a) :
+    exQuat o Real.sqrt Real.sin Real.cos atan2R (toQuat o Real.sin Real.cos a) = a := by
+  rw [extract_Quat_eq, toQuat_toMatrix33_eq_toMatrix33 o _ _ a real_hsc real_hodd real_heven real_hsin2 real_hcos2,
+    extract_inverts_toMatrix33_partial o a h]
+
+/-- `extractEulerXYZ` inverts `Matrix44::setEulerAngles` -/
+theorem extractEulerXYZ_inverts_setEulerAngles (tmin : ℝ) (a : V3 ℝ) (h : principal .XYZ a) :
+    Gen.Euler.extractEulerXYZ tmin Real.sqrt Real.sin Real.cos atan2R (Gen.Euler.M44_setEulerAngles Real.sin Real.cos a) = a := by
+  have sx := Real.sin_sq_add_cos_sq a.x
+  have sy := Real.sin_sq_add_cos_sq a.y
+  have sz := Real.sin_sq_add_cos_sq a.z
+  rw [← toMatrix44_XYZ_eq_setEulerAngles, extractEulerXYZ_eq_member, extract_inverts_toMatrix44_partial .XYZ a h]
+  all_goals (apply V3_length_unit; simp only [toM44, Gen.Euler.toMatrix44_XYZ])
+  · linear_combination (Real.cos a.y) ^ 2 * sz + sy
+  · linear_combination (Real.cos a.x ^ 2 + Real.sin a.y ^ 2 * Real.sin a.x ^ 2) * sz + Real.sin a.x ^ 2 * sy + sx
+  · linear_combination (Real.sin a.x ^ 2 + Real.sin a.y ^ 2 * Real.cos a.x ^ 2) * sz + Real.cos a.x ^ 2 * sy + sx
+
+/-- `extractEulerZYX` inverts the ZYX builder (`Euler (a, ZYX).toMatrix44 ()`) -/
+theorem extractEulerZYX_inverts_builder (tmin : ℝ) (a : V3 ℝ) (h : principal .ZYX a) :
+    Gen.Euler.extractEulerZYX tmin Real.sqrt Real.sin Real.cos atan2R (toM44 .ZYX Real.sin Real.cos a) = a := by
+  have sx := Real.sin_sq_add_cos_sq a.x
+  have sy := Real.sin_sq_add_cos_sq a.y
+  have sz := Real.sin_sq_add_cos_sq a.z
+  rw [extractEulerZYX_eq_member, extract_inverts_toMatrix44_partial .ZYX a h]
+  all_goals (apply V3_length_unit; simp only [toM44, Gen.Euler.toMatrix44_ZYX, mul_neg, mul_one, Real.sin_neg, Real.cos_neg])
+  · linear_combination (Real.sin a.x ^ 2 + Real.sin a.y ^ 2 * Real.cos a.x ^ 2) * sz + Real.cos a.x ^ 2 * sy + sx
+  · linear_combination (Real.cos a.x ^ 2 + Real.sin a.y ^ 2 * Real.sin a.x ^ 2) * sz + Real.sin a.x ^ 2 * sy + sx
+  · linear_combination (Real.cos a.y) ^ 2 * sz + sy
+
+/-- `extractEuler (Matrix22)` / `extractEuler (Matrix33)` invert `setRotation` -/
+theorem extractEuler_inverts_setRotation (tmin r : ℝ) (hr : r ∈ Set.Ico (-Real.pi) Real.pi) :
+    Gen.Euler.extractEuler22 tmin Real.sqrt atan2R (Gen.Euler.M22_setRotation Real.sin Real.cos r) = r
+    ∧ Gen.Euler.extractEuler33 tmin Real.sqrt atan2R (Gen.Euler.M33_setRotation Real.sin Real.cos r) = r := by
+  have s := Real.sin_sq_add_cos_sq r
+  have l0 : Gen.V2.length tmin Real.sqrt ⟨Real.cos r, Real.sin r⟩ = 1 := V2_length_unit _ _ (by simp only; linear_combination s)
+  have l1 : Gen.V2.length tmin Real.sqrt ⟨-Real.sin r, Real.cos r⟩ = 1 := V2_length_unit _ _ (by simp only; linear_combination s)
+  constructor
+  · simp only [Gen.Euler.extractEuler22, Gen.Euler.M22_setRotation, l0, l1, one_ne_zero, if_false, div_one]
+    rw [neg_eq_iff_eq_neg]; exact atan2R_eq_neg 1 r one_pos hr (by ring) (by ring)
+  · simp only [Gen.Euler.extractEuler33, Gen.Euler.M33_setRotation, l0, l1, one_ne_zero, if_false, div_one]
+    rw [neg_eq_iff_eq_neg]; exact atan2R_eq_neg 1 r one_pos hr (by ring) (by ring)
+
+/-- the principal ranges are inhabited: a concrete non-trivial triple for a non-repeated and a repeated order -/
+example : principal .YZX ⟨1, -1 / 2, -3 / 2⟩ ∧ principal .ZXZr ⟨-3 / 2, -1, 1⟩ := by
+  have := Real.two_le_pi
+  refine ⟨⟨⟨by linarith, by linarith⟩, ⟨by linarith, by linarith⟩, ?_⟩, ⟨⟨by linarith, by linarith⟩, ⟨by linarith, by linarith⟩, ?_⟩⟩
+  · simp only [Ord.repeated_table, if_false, Bool.false_eq_true]; constructor <;> linarith
+  · simp only [Ord.repeated_table, Ord.even_table, if_true, if_false, Bool.false_eq_true]; constructor <;> linarith
 
 /-! ## 7. Non-vacuity: the real functions satisfy the hypotheses -/
 
